@@ -3,3 +3,19 @@ use crate::common::boxes::*;
 use mp4::verif_hooks::*;
 use mp4::*;
 use std::io::Cursor;
+
+#[kani::proof]
+#[kani::unwind(5)]
+fn q_h05dec__esds() {
+    crate::c05_decode_ref!(EsdsBox, any_esds(), ref_esds, 47);
+}
+#[kani::proof]
+#[kani::unwind(8)]
+fn q_h05dec__avcc_s1x4_p1x2() {
+    crate::c05_decode_ref!(AvcCBox, any_avcc::<1, 4, 1, 2>(), ref_avcc, 33);
+}
+#[kani::proof]
+#[kani::unwind(6)]
+fn q_h05dec__hvcc_a1_n1x2() {
+    crate::c05_decode_ref!(HvcCBox, any_hvcc::<1, 1, 2>(), ref_hvcc, 46);
+}
